@@ -180,6 +180,72 @@ def scan_value(w, rep, rule, inst, val, point, sites, where):
         rep.fail(rule, "%s: %s in %s" % (inst, a.kind, owner), "%s [in %s: %s]" % (why, fn, short(Poly.atom(a), 100)), where=(rel, line))
 
 
+def _ite_leaves(p):
+    """Leaves of a (possibly negated) nested selection."""
+    a = p.single_atom()
+    if a is None and len(p.t) == 1:
+        (m, c), = p.t.items()
+        if len(m) == 1 and m[0][1] == 1 and m[0][0].kind == "ite" and c == -1:
+            for q in _ite_leaves(Poly.atom(m[0][0])):
+                yield -q
+            return
+    if a is not None and a.kind == "ite":
+        yield from _ite_leaves(a.key[1])
+        yield from _ite_leaves(a.key[2])
+        return
+    yield p
+
+
+def _bounded_by_construction(p):
+    """+-x / sqrt(x^2 + (squares)) - the quotient IEEE arithmetic keeps inside [-1, 1] - or a clamp (fmin/fmax)."""
+    a = p.single_atom()
+    if a is not None and a.kind in ("fmin", "fmax"):
+        return True
+    if len(p.t) != 1:
+        return False
+    (m, c), = p.t.items()
+    if abs(c) != 1 or len(m) != 2:
+        return False
+    num = [x for x, e in m if e == 1]
+    den = [x for x, e in m if e == -1 and x.kind == "sqrt"]
+    if len(num) != 1 or len(den) != 1:
+        return False
+    S = den[0].key[0]
+    if S.t.get(((num[0], 2),)) != 1:
+        return False
+    return all(cc > 0 and all(e % 2 == 0 for _, e in mm) for mm, cc in S.t.items())
+
+
+def check_acos_domain(w, rep, rule, groups=("SO3Quat", "SE3Quat", "SE23Quat")):
+    """The quaternion log feeds acos the scalar part of the NORMALISED quaternion: q0 / |q| cannot exceed 1 in IEEE arithmetic,
+    a raw q0 of a unit quaternion computed in floating point can (1 + 1 ulp), and acos then returns NaN - at zero rotation,
+    the point the property singles out.  Every selection of the acos argument must be such a quotient (or a clamp)."""
+    for nm in groups:
+        G = w.G(nm)
+        X, xp = w.fresh(G, "X")
+        ok, val = guarded(w, rep, rule, "%s.log for its acos argument" % nm, lambda: w.param(w.call(X, "log")))
+        if not ok:
+            continue
+        seen = set()
+        for p_ in val.flat():
+            for a in all_atoms(p_):
+                if a.kind in ("acos", "asin") and a not in seen:
+                    seen.add(a)
+        inst = "%s.log: acos is applied to a component of the normalised quaternion on every selection" % nm
+        if not seen:
+            rep.na(rule, inst, "no acos/asin in this log")
+            continue
+        bad = [q for a in seen for q in _ite_leaves(a.key[0]) if not _bounded_by_construction(q)]
+        raw = [q for q in bad if all(x.kind == "sym" for x in all_atoms(q))]
+        if raw:
+            rep.fail(rule, inst, "on some selection acos receives %s, a raw input component: for a unit quaternion computed in floating point (|q|^2 = 1 + 2.2e-16 is common, e.g. the product X^-1 X) "
+                     "it exceeds 1 and the whole log is NaN at zero rotation" % short(raw[0], 80), where=w.method_where(G, "log")[:2])
+        elif bad:
+            rep.na(rule, inst, "argument %s is not in a form this rule bounds" % short(bad[0], 80))
+        else:
+            rep.ok(rule, inst, fact={"acos_atoms": len(seen)})
+
+
 def check_singularities(w, rep, tier):
     sites = {"_list": []}
 
@@ -330,6 +396,7 @@ def run(w, rep, tier):
     rep.rule("C06.identity", "constant propagation of the identity element / zero vector through exp, log, Ad, Jacobians and conversions: no selected sqrt(0), acos/asin(+-1), division by 0 or atan2(0,0) (each makes the value or its automatic derivative non-finite there)")
     check_table(w, rep)
     check_singularities(w, rep, tier)
+    check_acos_domain(w, rep, "C06.identity")
     # the Taylor polynomial and the closed form reach CasADi through sympy_to_casadi: its leaf / fold / function rules (C19)
     # are part of "the series branch is the Taylor polynomial of f" (seeded C06-9 expanded integer powers one time too many)
     forward_rules(w, rep, "c19", {"C19.leaf": "C06.convert", "C19.fold": "C06.convert", "C19.func": "C06.convert", "C19.value": "C06.convert"}, tier)
